@@ -5,12 +5,13 @@ cd /verif
 out=seeded/MATRIX.md
 echo "| seeded change | patch used | quick check | violations reported |" > $out
 echo "|---|---|---|---|" >> $out
-for d in seeded/C*/; do
+for d in seeded/C*/ seeded/R2-C*/ seeded/X*/; do
   id=$(basename $d)
+  chk=${id#R2-}; [ "$chk" = "X01" ] && chk=C19
   p=/verif/$d/patch.diff
   [ -f /verif/$d/patch_on_repaired_tree.diff ] && p=/verif/$d/patch_on_repaired_tree.diff
-  res=$(tools/run_mutant.sh $p $id 2>&1 | grep -E "^== |PATCH DOES NOT")
+  res=$(tools/run_mutant.sh $p $chk 2>&1 | grep -E "^== |PATCH DOES NOT")
   nv=$(echo "$res" | sed -n 's/.*violations=\([0-9]*\).*/\1/p')
-  echo "| $id | $(basename $p) | ./check $id --tier quick | ${nv:-$res} |" >> $out
+  echo "| $id | $(basename $p) | ./check $chk --tier quick | ${nv:-$res} |" >> $out
   echo "$id ${nv:-$res}"
 done
